@@ -81,8 +81,17 @@ func (w *Worker) mut(id int) *Obj {
 }
 
 func (w *Worker) touch(o *Obj) {
-	if o.Pooled == 2 && len(w.stack) > 0 && !w.isHarnessFn(w.stack[len(w.stack)-1].fn) {
-		w.poolViolation("access to pooled buffer after Put (obj " + o.Tag + ") in " + w.curFn())
+	if o.Pooled < 2 || len(w.stack) == 0 { // 2 = released, 3 = released and since recycled
+		return
+	}
+	// an access by library code, or by a harness stub that library code called (the library
+	// handed a released buffer to the outside); the harness's own top-level inspection of
+	// results after Put is what C17 is about and is judged by its assertions instead
+	for i := len(w.stack) - 1; i >= 0; i-- {
+		if !w.isHarnessFn(w.stack[i].fn) {
+			w.poolViolation("access to pooled buffer after Put (obj " + o.Tag + ") in " + w.curFn())
+			return
+		}
 	}
 }
 
